@@ -64,6 +64,9 @@ CLAIMS = {
  "C09": ("taint analysis by abstract interpretation (symbols passing through stop_gradient are renamed; no output may depend on an unwrapped filter-bank symbol) + AST who-may-write and train_step/train role rules; parameter-generic equivariance from C06-C08",
          "Decides the structural part that makes the guarantee independent of the parameter values: every dependence of a layer or network output on the invariant filter bank passes through jax.lax.stop_gradient (so the bank's gradient is identically zero and an optimiser changes it at most by weight decay's common rescaling), the bank field is written only in ConvContract.__init__, the gradient is taken at and with respect to the model argument, and the model is changed only through optim.update + eqx.apply_updates; together with C06-C08 (equivariance for every value of every other learnable leaf) the returned model is equivariant after any training history.",
          "Trusted: optax/equinox update semantics (leaf values change, structure and static fields do not; weight decay is a common rescaling); zero-gradient leaves are not moved otherwise. No training run is executed.", "3/C09"),
+ "C03": ("exact partial evaluation of the data-free generator in the abstract interpreter (rational arithmetic) + exact linear algebra on the amplitude matrix (invariance, rank, character-formula dimension) + AST/CF rules on the rescaling tail and the pass-through wrappers",
+         "Decides exactly, for B_D, the rotation subgroup, the axis-flip group, C4 and the trivial group, D=2,3, odd and even M, k up to 4 (thorough), both parities, that the rows that become filters are each fixed by every group element, linearly independent over Q, and as many as the dimension of the fixed subspace given by the character formula -- hence a basis of the invariant filters; AST rules decide that the remainder of the function and normalize/rectify only rescale by non-zero factors or permute, that filters carry the function's parity and D, and that the wrappers drop nothing.",
+         "Trusted: the real float32 run reproduces the exact small-integer group average and np.unique separates exactly equal rows; callers pass a group. The generator has no data input, so its exact evaluation over the configuration box is a decision for those instances, not a sample of a continuous quantifier.", "3/C03"),
 }
 
 NA_REASON = "check not built yet in this session (build in progress); see DESIGN.md section 3 for the planned static rule"
